@@ -11,14 +11,16 @@ grep -n '^			{"[a-zA-Z]*", ' /repo/cmd/gts/*.go | grep -v '"version"' | while IF
   name=$(echo "$rest" | sed 's/.*{"\([a-zA-Z]*\)".*/\1/')
   rm -rf "$S/repo" "$S/root"; mkdir -p "$S/root"; rsync -a --exclude .git /repo/ "$S/repo/"
   rel=${file#/repo/}
-  sed -i "${line}d" "$S/repo/$rel"
-  if ! (cd "$S/repo" && go build ./... >/dev/null 2>&1); then
-    # the variable is now unused: keep it alive with a blank assignment
-    var=$(echo "$rest" | sed 's/.*", \**\([a-zA-Z]*\).*/\1/')
-    sed -i "${line}i\\			_ = $var" "$S/repo/$rel" 2>/dev/null
-    sed -i "$((line))s/^.*$/	/" "$S/repo/$rel"
-    if ! (cd "$S/repo" && go build ./... >/dev/null 2>&1); then printf '%s\t%s\tnobuild\n' "$rel" "$name" >> "$out"; continue; fi
-  fi
+  # the tuple stays, its value becomes a constant (the expression is still evaluated, so nothing is left unused)
+  python3 - "$S/repo/$rel" "$line" <<'PY'
+import sys, re
+p, n = sys.argv[1], int(sys.argv[2])
+ls = open(p).read().split("\n")
+m = re.match(r'^(\s*)\{"([A-Za-z]+)", (.*)\},\s*$', ls[n-1])
+ls[n-1] = '%s{"%s", func() interface{} { _ = %s; return nil }()},' % (m.group(1), m.group(2), m.group(3))
+open(p, "w").write("\n".join(ls))
+PY
+  if ! (cd "$S/repo" && go build ./... >/dev/null 2>&1); then printf '%s\t%s\tnobuild\n' "$rel" "$name" >> "$out"; continue; fi
   cp "$VERIF/known_findings.json" "$S/root/"
   VERIF_REPO="$S/repo" VERIF_ROOT="$S/root" "$VERIF/check" C14 quick >"$S/log" 2>&1; st=$?
   cls=$(grep -m1 '^violation' "$S/log" | sed 's/ occurrences.*//' | cut -c1-100)
